@@ -192,13 +192,23 @@ func vfE1PQExec(t *testing.T, line string, hist map[string]int) string {
 	switch w[0] + " " + w[1] {
 	case "pq1 push":
 		pq := vfE1ToIF(es)
-		pq.Push(&Message{ID: vfE1MsgID(int(num(3))), pri: num(4)})
 		hist["push"]++
+		if guard(func() { pq.Push(&Message{ID: vfE1MsgID(int(num(3))), pri: num(4)}) }) {
+			return "panic"
+		}
+		if guard(func() { _ = vfE1FromIF(pq) }) {
+			return "panic" // a nil entry was left in the array
+		}
 		return vfE1Dump(vfE1FromIF(pq))
 	case "pq2 push":
 		pq := vfE1ToPQ(es)
-		heap.Push(&pq, &pqueue.Item{Value: int(num(3)), Priority: num(4)})
 		hist["push"]++
+		if guard(func() { heap.Push(&pq, &pqueue.Item{Value: int(num(3)), Priority: num(4)}) }) {
+			return "panic"
+		}
+		if guard(func() { _ = vfE1FromPQ(pq) }) {
+			return "panic"
+		}
 		return vfE1Dump(vfE1FromPQ(pq))
 	case "pq1 pop", "pq1 remove":
 		pq := vfE1ToIF(es)
